@@ -9,7 +9,7 @@ import ast
 from ..core import AnchorError, atoms, call_name, decorators, dotted_text, names_in, norm, short, own_nodes, kwarg, FUNC_TYPES
 from ..cfg import cfg_of
 from ..lib import (calls_in, stmts_in, gate, must_pass, node_has, params, enclosing_handlers, handler_types, raised_name,
-                   none_safe, none_safe_chain, derefs_of, none_accept)
+                   none_safe, none_safe_chain, derefs_of, none_accept, dominating_facts)
 from .. import grammar as G
 
 API = 'jedi.api'
@@ -647,5 +647,141 @@ def describe(chk):
                'parameters are not tracked')
 
 
+TRIAGED_SIBLINGS = {
+    # (module, function, call) -> why the neighbourhood of the node is known although no type test dominates the call
+    ('jedi.api.file_name', '_add_os_path_join', 'searched_node.children.index(searched_node_child)'):
+        'searched_node is the parent the preceding while-loop stopped at: its type is one of arglist/trailer/error_node and every use below '
+        'is under a test of searched_node.type',
+    ('jedi.inference.value.dynamic_arrays', '_internal_check_array_additions', 'power.children.index(trailer)'):
+        'the neighbour is fetched under try/except IndexError and its type and first child are tested before use',
+}
+
+
+def _operands_type_tested(repo, f):
+    """every sibling handed out by the walk in front of a '+' has passed a type test that excludes operators and keywords"""
+    ys = [y for y in own_nodes(f) if isinstance(y, ast.Yield)]
+    if not ys:
+        return 'no yield found'
+
+    def acc(e, pol):
+        if not (isinstance(e, ast.Compare) and len(e.ops) == 1 and isinstance(e.left, ast.Attribute) and e.left.attr == 'type'):
+            return False
+        vals = e.comparators[0]
+        vals = {x.value for x in vals.elts if isinstance(x, ast.Constant)} if isinstance(vals, (ast.Tuple, ast.List, ast.Set)) else \
+            ({vals.value} if isinstance(vals, ast.Constant) else set())
+        if isinstance(e.ops[0], (ast.In, ast.Eq)) and not pol:
+            return {'operator', 'keyword'} <= vals
+        if isinstance(e.ops[0], (ast.NotIn, ast.NotEq)) and pol:
+            return {'operator', 'keyword'} <= vals
+        if isinstance(e.ops[0], (ast.In, ast.Eq)) and pol:
+            return bool(vals) and not (vals & {'operator', 'keyword', 'error_node', 'error_leaf'})
+        return False
+    for y in ys:
+        if norm(y.value) != 'child_node' and not isinstance(y.value, ast.Name):
+            continue
+        w = gate(f, y, lambda e, pol, y=y: acc(e, pol) and norm(e.left.value) == norm(y.value))
+        if w is not None:
+            return 'an untested sibling is handed to infer_node: %s' % w
+    return None
+
+
+CHECKED_SIBLINGS = {
+    ('jedi.api.file_name', '_get_string_additions.iterate_nodes', 'node.children.index(addition)'):
+        ('the parent of the `+` may be an error_node, so each sibling is type-tested before it is yielded as an operand (operators and '
+         'keywords end the walk: a unary plus adds nothing)', _operands_type_tested),
+}
+
+
+def _positive_type_test(func, exprs):
+    alias = {}
+    for a in stmts_in(func, ast.Assign):
+        if isinstance(a.value, ast.Attribute) and a.value.attr == 'type' and len(a.targets) == 1 and isinstance(a.targets[0], ast.Name):
+            alias[a.targets[0].id] = norm(a.value.value)
+
+    def accept(e, pol):
+        if not (isinstance(e, ast.Compare) and len(e.ops) == 1):
+            return False
+        left = e.left
+        subject = None
+        if isinstance(left, ast.Attribute) and left.attr == 'type':
+            subject = norm(left.value)
+        elif isinstance(left, ast.Name) and left.id in alias:
+            subject = alias[left.id]
+        if subject not in exprs:
+            return False
+        op = e.ops[0]
+        return bool((isinstance(op, (ast.Eq, ast.In)) and pol) or (isinstance(op, (ast.NotEq, ast.NotIn)) and not pol))
+    return accept
+
+
+def _type_facts(func, call, exprs):
+    """positive type knowledge about one of `exprs` (normalised texts) that dominates `call`: tests of <e>.type (or of a local that
+    holds <e>.type) with == / in taken true, or != / not in taken false"""
+    alias = {}
+    for a in stmts_in(func, ast.Assign):
+        if isinstance(a.value, ast.Attribute) and a.value.attr == 'type' and len(a.targets) == 1 and isinstance(a.targets[0], ast.Name):
+            alias[a.targets[0].id] = norm(a.value.value)
+    out = []
+    for e, pol in dominating_facts(func, call):
+        if not (isinstance(e, ast.Compare) and len(e.ops) == 1):
+            continue
+        left = e.left
+        subject = None
+        if isinstance(left, ast.Attribute) and left.attr == 'type':
+            subject = norm(left.value)
+        elif isinstance(left, ast.Name) and left.id in alias:
+            subject = alias[left.id]
+        if subject not in exprs:
+            continue
+        op = e.ops[0]
+        if (isinstance(op, (ast.Eq, ast.In)) and pol) or (isinstance(op, (ast.NotEq, ast.NotIn)) and not pol):
+            out.append('%s %s' % (norm(e), 'holds' if pol else 'is false'))
+    return out
+
+
+def rule_j(repo, chk):
+    chk.clause('C01.j', 'sibling arithmetic: wherever the position of a node among its parent\'s children is computed (P.children.index(X)) to reach '
+                        'its neighbours, the type of X or P has been established POSITIVELY on every path (== / in; a `!=` test leaves error_node '
+                        'and every other type open, and error recovery can put a node under an error_node whose children follow no grammar '
+                        'rule) - or the site is triaged with the reason the neighbourhood is known')
+    n = 0
+    for m in sorted(repo.modules.values(), key=lambda m: m.name):
+        for q, f in sorted(m.defs.items()):
+            if not isinstance(f, FUNC_TYPES):
+                continue
+            for c in own_nodes(f):
+                if not (isinstance(c, ast.Call) and isinstance(c.func, ast.Attribute) and c.func.attr == 'index' and isinstance(c.func.value, ast.Attribute)
+                        and c.func.value.attr == 'children' and len(c.args) == 1):
+                    continue
+                if isinstance(c.args[0], ast.Constant):
+                    x = None            # position of a token (':'), the parent's type is what matters
+                else:
+                    x = norm(c.args[0])
+                par = norm(c.func.value.value)
+                n += 1
+                key = (m.name, q.split('.')[-1] if False else q, norm(c))
+                tk = (m.name, q, norm(c))
+                if tk in TRIAGED_SIBLINGS:
+                    chk.ob('C01.j', True, c, '`%s`: triaged (%s)' % (short(c, 50), TRIAGED_SIBLINGS[tk]))
+                    continue
+                if tk in CHECKED_SIBLINGS:
+                    why, fn = CHECKED_SIBLINGS[tk]
+                    w = fn(repo, f)
+                    chk.ob('C01.j', w is None, c, '`%s`: %s' % (short(c, 50), why), w or '', key='siblings|%s:%s|%s' % tk)
+                    continue
+                exprs = {par}
+                if x is not None:
+                    exprs.add(x)
+                    if par == x + '.parent':
+                        pass
+                facts = _type_facts(f, c, exprs)
+                if not facts and gate(f, c, _positive_type_test(f, exprs)) is None:
+                    facts = ['one of several positive type tests on every path']
+                chk.ob('C01.j', bool(facts), c, 'the neighbours reached through `%s` in %s are those of a node whose type is known (%s)' % (short(c, 50), q, '; '.join(facts) or '-'),
+                       '' if facts else 'no positive type test of %s dominates the call: under an error_node (or any unforeseen parent) the siblings are arbitrary nodes' % ' / '.join(sorted(exprs)),
+                       key='siblings|%s:%s|%s' % tk)
+    chk.floor('C01.j', n, 8, '(children.index sites)')
+
+
 RULES = [('C01.a', rule_a), ('C01.b', rule_b), ('C01.c', rule_c), ('C01.d', rule_d), ('C01.e', rule_e), ('C01.f', rule_f),
-         ('C01.g', rule_g), ('C01.h', rule_h), ('C01.i', rule_i)]
+         ('C01.g', rule_g), ('C01.h', rule_h), ('C01.i', rule_i), ('C01.j', rule_j)]
